@@ -1085,9 +1085,17 @@ inline void finish_set(std::vector<i128>& v, Rep r)
     v.swap(o);
 }
 
-inline void add_boundaries(std::vector<i128>& v)
+inline void add_boundaries(std::vector<i128>& v, bool full = true)
 {
     i128 const p31 = i128(1) << 31, p62 = i128(1) << 62, p63 = i128(1) << 63, p30 = i128(1) << 30;
+    if (!full) { // the values the property names: +-(2^31-1), +-2^31, +-2^62, and the extremes of int64
+        for (i128 x : {p31 - 1, p31, p62, p63 - 1}) {
+            v.push_back(x);
+            v.push_back(-x);
+        }
+        v.push_back(-p63);
+        return;
+    }
     for (i128 base : {p30, p31, p62, p63}) {
         for (int d = -2; d <= 2; ++d) {
             v.push_back(base + d);
@@ -1124,15 +1132,24 @@ inline std::vector<i128> first_operands(PairCtx const& c, int range)
 }
 
 /// second operands: a small dense range, unit-conversion constants and the boundaries
+/// (quick tier: range <= 4, fewer constants, the reduced boundary list)
 inline std::vector<i128> second_operands(Rep r, int range)
 {
+    bool const full = range > 4;
     std::vector<i128> v;
     for (int x = -range; x <= range; ++x) { v.push_back(x); }
-    for (i128 x : {59, 60, 61, 999, 1000, 1001, 2000, 86400, 30000, 1000000000}) {
-        v.push_back(x);
-        v.push_back(-x);
+    if (full) {
+        for (i128 x : {59, 60, 61, 999, 1000, 1001, 2000, 86400, 30000, 1000000000}) {
+            v.push_back(x);
+            v.push_back(-x);
+        }
+    } else {
+        for (i128 x : {60, 1000, 1001}) {
+            v.push_back(x);
+            v.push_back(-x);
+        }
     }
-    add_boundaries(v);
+    add_boundaries(v, full);
     finish_set(v, r);
     return v;
 }
